@@ -141,6 +141,10 @@ pub struct Failure {
     pub stream: String,
     pub reason: String,
     pub case: Value,
+    /// cases that have to run before `case` (same thread, in this order) for it to fail:
+    /// empty for an ordinary failure, non-empty for a history-dependent one (state leaking
+    /// between calls)
+    pub history: Vec<Value>,
 }
 
 pub struct RunCtx {
@@ -153,8 +157,9 @@ pub struct RunCtx {
 pub trait AnyStream: Send + Sync {
     fn name(&self) -> &'static str;
     fn run(&self, ctx: &RunCtx) -> StreamReport;
-    /// run the check on exactly one stored case; Ok(Ok) = holds
-    fn replay(&self, case: &Value) -> Result<Result<(), String>, String>;
+    /// run the check on exactly one stored case (after running the cases of `history`, whose
+    /// own results are ignored, on the same fresh thread); Ok(Ok) = holds
+    fn replay(&self, case: &Value, history: &[Value]) -> Result<Result<(), String>, String>;
 }
 
 fn fnv(s: &str) -> u64 {
@@ -229,6 +234,30 @@ pub fn run_check<C: Case>(check: CheckFn<C>, case: &C, obs: &mut Obs) -> Result<
         Err(p) => Err(p),
     }
 }
+
+/// Run `history` (results ignored) and then `last` on a fresh thread, so that thread-local
+/// state left behind by earlier cases of the run cannot influence the verdict.
+pub fn run_sequence_fresh<C: Case>(check: CheckFn<C>, history: &[C], last: &C) -> Result<(), String> {
+    std::thread::scope(|sc| {
+        std::thread::Builder::new()
+            .stack_size(SHARD_STACK)
+            .spawn_scoped(sc, || {
+                install_panic_hook();
+                for h in history {
+                    let mut o = Obs::default();
+                    let _ = run_check(check, h, &mut o);
+                }
+                let mut o = Obs::default();
+                run_check(check, last, &mut o)
+            })
+            .expect("spawn replay thread")
+            .join()
+            .unwrap_or_else(|_| Err("panic outside the guarded region".to_string()))
+    })
+}
+
+/// How many preceding cases are remembered for history-dependent failures
+pub const HISTORY_LEN: usize = 24;
 
 struct Slot<C> {
     cur: Mutex<Option<(Instant, C)>>,
@@ -327,6 +356,7 @@ fn write_replay(property: &str, tag: &str, f: &Failure, ctx: &RunCtx) -> PathBuf
         "property": property,
         "stream": f.stream,
         "case": f.case,
+        "history": f.history,
         "reason": f.reason,
         "seed": ctx.seed,
         "tier": ctx.tier.name(),
@@ -368,6 +398,7 @@ fn watchdog<C: Case>(
                     stream: stream.to_string(),
                     reason: format!("no result within {} s (watchdog)", WATCHDOG_SECS),
                     case: serde_json::to_value(&c).unwrap_or(Value::Null),
+                    history: vec![],
                 };
                 let path = write_replay(property, "hang-", &f, &ctx);
                 println!(
@@ -418,10 +449,13 @@ impl<C: Case> AnyStream for Stream<C> {
         self.name
     }
 
-    fn replay(&self, case: &Value) -> Result<Result<(), String>, String> {
+    fn replay(&self, case: &Value, history: &[Value]) -> Result<Result<(), String>, String> {
         let c: C = serde_json::from_value(case.clone()).map_err(|e| e.to_string())?;
-        let mut obs = Obs::default();
-        Ok(run_check(self.check, &c, &mut obs))
+        let mut hist: Vec<C> = vec![];
+        for h in history {
+            hist.push(serde_json::from_value(h.clone()).map_err(|e| e.to_string())?);
+        }
+        Ok(run_sequence_fresh(self.check, &hist, &c))
     }
 
     fn run(&self, ctx: &RunCtx) -> StreamReport {
@@ -468,7 +502,16 @@ impl<C: Case> AnyStream for Stream<C> {
                                 let mut runner =
                                     TestRunner::new_with_rng(proptest_config(per), rng);
                                 let acc = std::cell::RefCell::new(Acc::default());
+                                let recent: std::cell::RefCell<std::collections::VecDeque<C>> = Default::default();
+                                let first_failure: std::cell::RefCell<Option<Vec<C>>> = Default::default();
                                 let res = runner.run(&strategy, |c| {
+                                    if first_failure.borrow().is_none() {
+                                        let mut r = recent.borrow_mut();
+                                        if r.len() == HISTORY_LEN + 1 {
+                                            r.pop_front();
+                                        }
+                                        r.push_back(c.clone());
+                                    }
                                     *slots[i].cur.lock().unwrap() = Some((Instant::now(), c.clone()));
                                     let mut obs = Obs::default();
                                     let t_case = Instant::now();
@@ -482,6 +525,8 @@ impl<C: Case> AnyStream for Stream<C> {
                                         a.record(&c, &obs, key);
                                         if r.is_err() {
                                             a.failed = true;
+                                            // the failing case and what ran before it on this thread
+                                            *first_failure.borrow_mut() = Some(recent.borrow().iter().cloned().collect());
                                         }
                                     }
                                     r.map_err(TestCaseError::fail)
@@ -490,17 +535,52 @@ impl<C: Case> AnyStream for Stream<C> {
                                 match res {
                                     Ok(()) => {}
                                     Err(TestError::Fail(reason, c)) => {
-                                        // re-derive the reason on the minimal case
-                                        let mut obs = Obs::default();
-                                        let why = match run_check(check, &c, &mut obs) {
-                                            Err(e) => e,
-                                            Ok(()) => format!("{}", reason),
-                                        };
-                                        a.rep.failure = Some(Failure {
-                                            stream: name.to_string(),
-                                            reason: why,
-                                            case: serde_json::to_value(&c).unwrap_or(Value::Null),
-                                        });
+                                        let val = |x: &C| serde_json::to_value(x).unwrap_or(Value::Null);
+                                        // (1) does the shrunk case fail on its own, on a fresh thread?
+                                        match run_sequence_fresh(check, &[], &c) {
+                                            Err(why) => {
+                                                a.rep.failure = Some(Failure { stream: name.to_string(), reason: why, case: val(&c), history: vec![] });
+                                            }
+                                            Ok(()) => {
+                                                // (2) history-dependent: replay what ran before the first
+                                                // failing case, then drop every predecessor that is not needed
+                                                let seq = first_failure.borrow().clone().unwrap_or_default();
+                                                let (last, mut hist) = match seq.split_last() {
+                                                    Some((l, h)) => (l.clone(), h.to_vec()),
+                                                    None => (c.clone(), vec![]),
+                                                };
+                                                match run_sequence_fresh(check, &hist, &last) {
+                                                    Err(why0) => {
+                                                        let mut why = why0;
+                                                        let mut k = 0;
+                                                        while k < hist.len() {
+                                                            let mut shorter = hist.clone();
+                                                            shorter.remove(k);
+                                                            match run_sequence_fresh(check, &shorter, &last) {
+                                                                Err(w) => {
+                                                                    hist = shorter;
+                                                                    why = w;
+                                                                }
+                                                                Ok(()) => k += 1,
+                                                            }
+                                                        }
+                                                        a.rep.failure = Some(Failure {
+                                                            stream: name.to_string(),
+                                                            reason: format!("{} [only after the {} preceding case(s) of the replay file ran on the same thread: state is carried from one call to the next]", why, hist.len()),
+                                                            case: val(&last),
+                                                            history: hist.iter().map(val).collect(),
+                                                        });
+                                                    }
+                                                    Ok(()) => {
+                                                        println!(
+                                                            "INCONCLUSIVE: stream {} reported a failure ({}) that reproduces neither on its own nor after the {} cases that preceded it",
+                                                            name, reason, hist.len()
+                                                        );
+                                                        std::process::exit(2);
+                                                    }
+                                                }
+                                            }
+                                        }
                                     }
                                     Err(TestError::Abort(reason)) => {
                                         // generator health problem: never a violation
@@ -541,6 +621,7 @@ impl<C: Case> AnyStream for Stream<C> {
                                             stream: name.to_string(),
                                             reason: e,
                                             case: serde_json::to_value(&c).unwrap_or(Value::Null),
+                                            history: vec![],
                                         });
                                         break;
                                     }
@@ -587,6 +668,8 @@ pub struct StoredCase {
     pub case: Value,
     #[serde(default)]
     pub reason: String,
+    #[serde(default)]
+    pub history: Vec<Value>,
 }
 
 #[derive(serde::Deserialize, Debug, Clone)]
@@ -640,6 +723,7 @@ pub fn load_known_findings() -> Vec<KnownFinding> {
 fn timed_replay(
     s: &dyn AnyStream,
     case: &Value,
+    history: &[Value],
     what: &str,
     property: &str,
     hang_is_violation: bool,
@@ -650,7 +734,7 @@ fn timed_replay(
             .stack_size(SHARD_STACK)
             .spawn_scoped(sc, move || {
                 install_panic_hook();
-                let _ = tx.send(s.replay(case));
+                let _ = tx.send(s.replay(case, history));
             })
             .expect("spawn replay");
         match rx.recv_timeout(Duration::from_secs(WATCHDOG_SECS)) {
@@ -746,7 +830,7 @@ pub fn run_property(p: &Property, tier: Tier, seed: u64) -> i32 {
             let outcome = if w.isolate {
                 Some(isolated_replay(p.id, &k.id, w))
             } else {
-                find_stream(p, &w.stream).map(|s| timed_replay(s, &w.case, &format!("witness of {}", k.id), p.id, false))
+                find_stream(p, &w.stream).map(|s| timed_replay(s, &w.case, &[], &format!("witness of {}", k.id), p.id, false))
             };
             match outcome {
                 Some(Ok(Err(_still_fails))) => {
@@ -784,7 +868,7 @@ pub fn run_property(p: &Property, tier: Tier, seed: u64) -> i32 {
             println!("INCONCLUSIVE: regression {} names unknown stream {}", f.display(), sc.stream);
             return 2;
         };
-        match timed_replay(s, &sc.case, &f.display().to_string(), p.id, p.hang_is_violation) {
+        match timed_replay(s, &sc.case, &sc.history, &f.display().to_string(), p.id, p.hang_is_violation) {
             Ok(Ok(())) => regressions += 1,
             Ok(Err(why)) => {
                 regressions += 1;
@@ -947,7 +1031,7 @@ pub fn replay_file(props: &[Property], path: &Path) -> i32 {
         println!("INCONCLUSIVE: unknown stream {}", sc.stream);
         return 2;
     };
-    match s.replay(&sc.case) {
+    match s.replay(&sc.case, &sc.history) {
         Ok(Ok(())) => {
             println!("replay {}: property {} holds on this case", path.display(), p.id);
             0
